@@ -393,6 +393,9 @@ impl Values {
 }
 
 impl Family for Values {
+    fn ambient(&self, idx: u64) -> u64 {
+        crate::engine::rot(idx)
+    }
     fn name(&self) -> String {
         "single-parameter-values".into()
     }
@@ -446,6 +449,9 @@ const ALL_PARAM_TYPES: [u8; 25] = [0x01, 0x02, 0x0d, 0x03, 0x09, 0x08, 0x04, 0x0
 /// every type code x unsigned in three position classes of a 4-parameter statement
 struct Positions;
 impl Family for Positions {
+    fn ambient(&self, idx: u64) -> u64 {
+        crate::engine::rot(idx)
+    }
     fn name(&self) -> String {
         "type-codes-in-every-position".into()
     }
@@ -503,6 +509,9 @@ impl Rebinds {
     }
 }
 impl Family for Rebinds {
+    fn ambient(&self, idx: u64) -> u64 {
+        crate::engine::rot(idx)
+    }
     fn name(&self) -> String {
         ["rebinds-one-parameter-all-type-pairs", "rebinds-two-parameters-integer-tables", "rebinds-one-parameter-integer-triples"][self.mode as usize].into()
     }
@@ -553,6 +562,9 @@ impl Bitmaps {
     }
 }
 impl Family for Bitmaps {
+    fn ambient(&self, idx: u64) -> u64 {
+        crate::engine::rot(idx)
+    }
     fn name(&self) -> String {
         "parameter-counts-and-null-bitmaps".into()
     }
@@ -603,6 +615,9 @@ impl Family for Bitmaps {
 /// inline values of executions that follow an execution fed by long data
 struct AfterLongData;
 impl Family for AfterLongData {
+    fn ambient(&self, idx: u64) -> u64 {
+        crate::engine::rot(idx)
+    }
     fn name(&self) -> String {
         "inline-after-long-data".into()
     }
